@@ -143,7 +143,45 @@ def cmd_run(sid, tier='quick', props=None, extra='', in_repo=False):
     return 0
 
 
+def cmd_table():
+    """Markdown table of every kept change and what the checks did with it (for DESIGN.md section 9.4)."""
+    print('| id | property | the change (cover story) | needs | quick check of that property | earlier misses |')
+    print('|----|----------|--------------------------|-------|------------------------------|----------------|')
+    for sid in sorted(os.listdir(SEEDED)):
+        p = os.path.join(SEEDED, sid, 'meta.json')
+        if not os.path.exists(p):
+            continue
+        m = json.load(open(p))
+        sh_ = m.get('short', {})
+        own = [c for c in m.get('checks', []) if c['property'] == m['property']]
+        other = [c for c in m.get('checks', []) if c['property'] != m['property'] and c.get('caught')]
+        res = '—'
+        if own:
+            c = own[-1]
+            key = ((c.get('first') or [''])[0].split(' at ')[0].split(':')[0])[:60]
+            res = ('**caught** (%s; %d VIOLATION line%s)' % (key, c['violation_lines'], '' if c['violation_lines'] == 1 else 's')) if c['caught'] else '**MISSED**'
+        if other:
+            res += '; also ' + ', '.join(sorted(set(c['property'] for c in other)))
+        misses = [h for h in m.get('history', []) if not h.get('caught') and h.get('property') == m['property']]
+        print('| %s | %s | %s | %s | %s | %s |' % (sid, m['property'], sh_.get('change', ''), sh_.get('needs', ''), res,
+                                               '; '.join((h.get('note') or 'missed at /verif ' + h.get('verif', '?')) for h in misses) or ''))
+
+
 def main():
+    if sys.argv[1] == 'table':
+        if '--into-design' in sys.argv:
+            import io
+            import contextlib
+            buf = io.StringIO()
+            with contextlib.redirect_stdout(buf):
+                cmd_table()
+            dp = os.path.join(ROOT, 'DESIGN.md')
+            d = open(dp).read()
+            a, b = d.index('<!-- seeded-table:begin -->'), d.index('<!-- seeded-table:end -->')
+            d = d[:a] + '<!-- seeded-table:begin -->\n' + buf.getvalue() + d[b:]
+            open(dp, 'w').write(d)
+            return
+        return cmd_table()
     if sys.argv[1] == 'import':
         sys.exit(cmd_import(sys.argv[2], sys.argv[3], sys.argv[4]))
     if sys.argv[1] == 'run':
